@@ -33,7 +33,7 @@ DEFAULT_CFG = dict(
     p_appearance=0.15, p_parameters=0.3, p_repeat_count=0.3, p_section_label=0.8,
     p_bind_extra=0.0, p_instance_extra=0.0, p_body_extra=0.0,
     p_settings=0.5, name_style="mixed", p_group_logic=0.3, p_disabled=0.0,
-    hostile_text=False, audit=0.0, p_choice_nolabel=0.0, p_choice_label_ref=0.0, p_search=0.0, p_section_media=0.0, p_noapp=0.0,
+    hostile_text=False, audit=0.0, p_choice_nolabel=0.0, p_choice_label_ref=0.0, p_search=0.0, p_section_media=0.0, p_noapp=0.0, p_msg_ref=0.0,
 )
 
 PLAIN_NAMES = ["age", "name1", "dob", "village", "hh", "crop", "income", "gps", "photo1", "notes", "visit",
@@ -323,10 +323,12 @@ def gen_form(rng: random.Random, cfg=None) -> Form:
                 r.cells["required"] = rng.choice(["yes", "true()", expr(r, anc, "required")])
                 if rng.random() < cfg["p_required_msg"]:
                     put_text(r, "required_message", "reqmsg")
+                    _maybe_msg_ref(rng, cfg, r, "required_message", pick_ref(r, anc))
             if rng.random() < cfg["p_constraint"]:
                 r.cells["constraint"] = expr(r, anc, "constraint")
                 if rng.random() < cfg["p_constraint_msg"]:
                     put_text(r, "constraint_message", "conmsg")
+                    _maybe_msg_ref(rng, cfg, r, "constraint_message", pick_ref(r, anc))
             if rng.random() < cfg["p_readonly"]:
                 r.cells["read_only"] = rng.choice(["yes", "true()", expr(r, anc, "readonly")])
             if rng.random() < cfg["p_calc_on_visible"] and base_t in ("text", "integer", "decimal"):
@@ -424,6 +426,15 @@ def gen_form(rng: random.Random, cfg=None) -> Form:
     if cfg["audit"] and rng.random() < cfg["audit"]:
         f.survey.append(Row("q", "audit", "audit", {"parameters": "track-changes=true"}))
     return f
+
+
+def _maybe_msg_ref(rng, cfg, r, base, tg):
+    if tg is None or rng.random() >= cfg["p_msg_ref"]:
+        return
+    hs = [h for h in r.cells if h == base or h.startswith(base + ":")]
+    if hs:
+        h = rng.choice(hs)
+        r.cells[h] = r.cells[h] + f" ${{{tg.name}}} tail"
 
 
 def _inside(x, section):
